@@ -25,19 +25,6 @@ try:  # the list of sequence theorems lives next to the check so that it can gro
 except ImportError:
     pass
 
-PROPOSED_FILE = os.path.join(core.VERIF, "notes", "findings-seq.txt")
-
-
-def proposed_findings():
-    res = {}
-    if os.path.exists(PROPOSED_FILE):
-        for ln in open(PROPOSED_FILE):
-            m = re.match(r"finding:\s+property=C14\s+key=(\S+)\s*(.*)", ln.strip())
-            if m:
-                res[m.group(1)] = m.group(2)
-    return res
-
-
 # ------------------------------------------------------------------------------------------------
 # units
 
@@ -441,59 +428,6 @@ def run_stream_of_programs(ctx, name, kind, exe, drv, lines, jobs=12):
 
 
 # ------------------------------------------------------------------------------------------------
-# probes for the defects that have a proposed fix but are still in the tree
-
-PROBES = {
-    "array-self-append": ("array_self_appc", "seq_harness", [
-        "seq-array i push:0:1;push:0:2;push:0:3;appc:0:0",
-        "seq-array s push:0:1;push:0:2;appc:0:0",
-        "seq-array s ctorn:0:8:0;push:0:1;push:0:2;appc:0:0;appc:0:0",
-        "seq-array i ctorn:0:8:0;push:0:1;push:0:2;appc:0:0"]),
-    "stream-self-shl": ("stream_self_shl", "seq_harness", [
-        "seq-stream 1 x appu:2:0:97,98,99,100,101,102,103,104;shls:0:0;shls:0:0",
-        "seq-stream 2 x pushch:0:0:65;shls:0:0;shls:0:0;shls:0:0"]),
-    "string-stepback0-null": ("string_stepback0", "seq_harness", [
-        "seq-string 1 stepback:0:0",
-        "seq-string 4 ctoru:0:97;asgm:1:0;stepback:0:0"]),
-}
-
-
-def run_probes(ctx, exe, drv):
-    """Each probe program runs alone (a fault ends the process).  A probe that faults or differs from
-    the List specification is a failing input of the property; its operation is then left out of
-    the generated programs (it would end every batch)."""
-    flags = {}
-    known = core.load_findings().get("C14", {})
-    proposed = proposed_findings()
-    for key, (flag, _, lines) in PROBES.items():
-        ok = True
-        for ln in lines:
-            impl, faults = core.run_lines(exe, [ln])
-            kind = ln.split(" ")[0][4:]
-            sline = ln.replace("seq-" + kind, "seq-" + kind + "-spec", 1)
-            spec, _ = core.run_lines(drv, [sline], env=None)
-            bad = None
-            if faults:
-                bad = "sanitizer fault %s" % faults[0][1]
-            elif impl[0] != "bad-op":
-                got, problems = to_spec_format(kind, impl[0])
-                if problems or got != spec[0]:
-                    bad = "result differs from the List specification (%s)" % "; ".join(problems[:2])
-            if bad:
-                ok = False
-                text = "%s on %s" % (bad, ln)
-                if key in known or key not in proposed:
-                    ctx.fail(key, text, {"line": ln, "impl_output": impl[0], "list_spec": spec[0], "stderr": faults[0][2] if faults else ""})
-                else:
-                    print("KNOWN-FINDING: property=C14 %s (%s; proposed in notes/findings-seq.txt, fix in notes/)" % (proposed[key], key), flush=True)
-                    ctx.notes.append("proposed finding %s reproduced: %s" % (key, text))
-                break
-        flags[flag] = ok
-        ctx.count("probe:" + key, len(lines), len(lines))
-    return flags
-
-
-# ------------------------------------------------------------------------------------------------
 # Memory::Copy / SetToZero
 
 
@@ -564,15 +498,25 @@ def corpus_lines():
     return out
 
 
+def build_driver_all_areas(ctx):
+    """The driver imports every area's Generated module (git-ignored); C14 has no constants of its
+    own, so make sure the others exist before `lake build qdriver` (a fresh checkout has none)."""
+    from vlib import constants
+    for a in constants.area_names():
+        if not os.path.exists(os.path.join(core.LEAN_DIR, "Qentem", "Generated", a + ".lean")):
+            constants.generate(a)
+    return ctx.build_driver()
+
+
 def run(ctx):
     ctx.prove(["Qentem.Props.C14"], THEOREMS)
-    drv = ctx.build_driver()
+    drv = build_driver_all_areas(ctx)
     h_x = ctx.build_harness("seq_harness.cpp", tag="san_exact")
     h_s = ctx.build_harness("seq_harness.cpp", flags=[f for f in core.SAN_FLAGS if not f.startswith("-D" + core.GUARD)], tag="san_std")
     if not (drv and h_x and h_s):
         return
     rng = ctx.rng
-    flags = run_probes(ctx, h_x, drv)
+    flags = {"array_self_appc": True, "stream_self_shl": True, "string_stepback0": True}   # all repaired (5f6da32, c1884a5, 6bc11c7)
     T = ctx.thorough
     corpus = corpus_lines()
 
@@ -621,7 +565,6 @@ def run(ctx):
         run_stream_of_programs(ctx, "view<%s>" % w, "view", h_x, drv, lines)
     # ---- Memory::Copy / SetToZero ---------------------------------------------------------------
     run_mem(ctx, drv)
-    ctx.notes.append("operations left out of generated programs because their probe failed: %s" % sorted(k for k, v in flags.items() if not v))
     ctx.assumptions += ["sizes are Nat in the model: no 32-bit SizeT wrap-around (all sizes in the runs are < 2^13)",
                         "char comparisons use units < 128 (signedness of char is C15's subject)",
                         "cells handed out uninitialised (String(len), Buffer, SetLength) are written by the caller before they are read",
